@@ -274,6 +274,19 @@ def alias_collision_final(rnd, ir):
     return True
 
 
+def unused_alias_final(rnd, ir):
+    """A reader field (and its record) lists a name from an older generation that the writer does not use: nothing changes."""
+    records = [n for _, _, n in positions(ir) if n["k"] == "record" and n["fields"]]
+    if not records:
+        return False
+    r = rnd.choice(records)
+    f = rnd.choice(r["fields"])
+    f["aliases"] = list(f.get("aliases", [])) + ["zz_older_name_%d" % rnd.randint(0, 9)]
+    if rnd.random() < 0.3:
+        r["aliases"] = list(r.get("aliases", [])) + ["ZzOlderType"]
+    return True
+
+
 def normalize_defs(ir):
     """Make the first occurrence (document order) of every named type its definition and all later ones references:
     after fields were reordered a reference may precede the definition - swap them (inline vs by reference differs between the sides)."""
@@ -403,6 +416,8 @@ def run_c08(ctx, fa):
                 applied.append(st)
         if rnd.random() < 0.1 and alias_collision_final(rnd, rir):
             applied.append("alias_collision")
+        if rnd.random() < 0.15 and unused_alias_final(rnd, rir):
+            applied.append("unused_alias")
         try:
             rraw = gr.render(rir)
         except KeyError:
